@@ -60,6 +60,9 @@ def py_isinstance(interp, v, T):
             raise OutOfSubset("isinstance on an opaque reference")
         T2 = getattr(T, "pytype", None) or T
         if isinstance(T2, ClassVal):
+            if not classes:
+                # nothing is known about the classes of opaque elements: "not an instance" would be a guess
+                raise OutOfSubset("isinstance(<opaque element>, %s): the contract does not say what the elements are" % T2.name)
             return any(c.name in classes for c in [T2]) or any(n in classes and T2 in _mro_by_name(interp, T2, n) for n in ())
         return False
     if isinstance(v, GhostVal):
